@@ -84,7 +84,11 @@ class Ctx:
 
     def require_count(self, rule, n_min, but_not_ending=None):
         n = sum(1 for o in self.obs if o.rule == rule and not (but_not_ending and o.instance.endswith(but_not_ending)))
-        if n < n_min:
+        # the floor guards against a rule that silently stops matching; merging two copies of an idiom into one helper
+        # legitimately removes an instance or two, so a tenth of the confirmed count (at least one) is tolerated
+        floor = n_min - max(1, n_min // 10) if n_min > 2 else n_min
+        self.extra.setdefault("instance_floors", {})[rule] = {"matched": n, "confirmed_by_hand": n_min, "floor": floor}
+        if n < floor:
             raise AnalysisBroken("rule %s matched %d instance(s), fewer than the %d confirmed by hand - "
                                  "anchor moved or idiom not recognised" % (rule, n, n_min))
 
